@@ -79,7 +79,7 @@ static mut WS_L2: usize = 0;
 
 /// tungstenite's documented `read` contract, as far as the adapter depends on it: yields the next complete message, or
 /// reports that nothing is available yet (WouldBlock). Here: message 1, then message 2, then would-block.
-fn stub_ws_read<T: Read + Write>(_ws: &mut WebSocket<T>) -> Result<Message, tungstenite::error::Error> {
+fn stub_ws_read<Stream: Read + Write>(_ws: &mut WebSocket<Stream>) -> Result<Message, tungstenite::error::Error> {
     unsafe {
         WS_CALLS += 1;
         if WS_CALLS == 1 { return Ok(Message::Binary(WS_M1[..WS_L1].to_vec())); }
